@@ -139,7 +139,6 @@ func (c *wsConn) dispose() {
 	c.serv.mu.Lock()
 	defer c.serv.mu.Unlock()
 
-	c.serv.wg.Done()
 	delete(c.serv.conns, c.cid)
 }
 
@@ -710,6 +709,10 @@ func (c *wsConn) outputWorker() {
 	}
 
 	c.queue = nil
+	// The connection is done first when the work queued ahead of, or accepted
+	// just before, its disposal has been carried out. A service that is
+	// stopping must not close the cache workers underneath it.
+	c.serv.wg.Done()
 }
 
 func (c *wsConn) subscribeConn() {
